@@ -377,8 +377,11 @@ def legacy_chain(seed, name="legacy", tip=44, peg_requests=True):
             for u in users[:5]:
                 if rnd.random() < 0.4 or h <= 3:
                     s.burn(h, u, rnd.choice([fund, fund // 3, 12345]))
+            shapes = ["hasFctOut", "ecAmt", "twoInputs", "wrongEc", "noEc", "twoEc"]
+            if h <= len(shapes):
+                s.burn(h, users[1], 70000 + h, shape=shapes[h - 1])        # every factoid transaction shape that is NOT a burn, once
             if rnd.random() < 0.3:
-                s.burn(h, users[0], 777, shape=rnd.choice(["hasFctOut", "ecAmt", "twoInputs", "wrongEc", "noEc", "twoEc"]))
+                s.burn(h, users[0], 777, shape=rnd.choice(shapes))
         if h >= LEG["TxConv"]:
             for u in users:
                 if u == "E1" and h <= LEG["RCDe"]:
